@@ -5,7 +5,8 @@
    X09 colour on versus colour off (Colour.tla)   X10 struct tag syntax (TagParse.tla)
    X11 daemon.Run role dispatch, Launch outcomes off the protocol (DaemonRole.tla)
    X12 osutil.WaitFor / WaitForInterrupt / WaitForStop over delivered signals (WaitFor.tla)
-   X13 config.FromCommandLine in child processes (CmdLine.tla on top of ArgParse.tla), ioutil.SeekAndReadAll (SeekRead.tla)"""
+   X13 config.FromCommandLine in child processes (CmdLine.tla on top of ArgParse.tla), ioutil.SeekAndReadAll (SeekRead.tla)
+   X14 TaskLane.ShortestQueueIndex on lanes at rest, under load and as the lane chooser of a producer (LanePick.tla)"""
 import json
 import vlib
 from vlib import judge
@@ -14,8 +15,10 @@ import p_c01
 
 def run(ctx, which):
     q = ctx.quick()
-    hb = ctx.build("extras")
     out = ctx.path("cases.ndjson")
+    if which == "X14":
+        return run_x14(ctx, q, out)
+    hb = ctx.build("extras")
     if which == "X01":
         r = ctx.tlc("util", "StrUtilMC", "SPECIFICATION Spec\nCONSTANT MaxLen = %d\nINVARIANT Facts\nCHECK_DEADLOCK FALSE\n" % (4 if q else 5), workers=16, timeout=1800)
         if r.violated:
@@ -119,4 +122,34 @@ def run(ctx, which):
         ctx.violation(which + " " + what(c)[:80], what(c), c)
     ctx.cov.update({"traces_validated_against_impl": len(rows), "evaluations": len(rows), "distinct_nontrivial": len(rows) // 2,
                     "rule": "extras family %s: recorded real results judged by the TLA+ module" % which, "bad": len(bad)})
+    ctx.sample(rows[len(rows) // 2])
+
+
+def run_x14(ctx, q, out):
+    cfg = "SPECIFICATION Spec\nCONSTANTS N = %d\nQ = %d\nStrict = %s\nINVARIANTS TypeOK InRange AtRest\nCHECK_DEADLOCK FALSE\n"
+    for n, qq in ([(1, 1), (2, 2), (3, 2)] if q else [(1, 1), (2, 3), (3, 3), (4, 2)]):
+        r = ctx.tlc("tasklane", "LanePick", cfg % (n, qq, "TRUE"), workers=8, timeout=900, tag="LanePick N=%d Q=%d" % (n, qq))
+        if r.violated:
+            raise vlib.Infra("spec-level counterexample:\n" + r.trace[:2000])
+    mr = ctx.tlc("tasklane", "LanePick", cfg % (3, 1, "FALSE"), workers=4, timeout=300, count=False, tag="mutant: <= instead of <")
+    if not mr.violated:
+        raise vlib.Infra("vacuity: the `<=` mutant of the loop satisfies AtRest")
+    hb = ctx.build("tasklane")
+    ctx.run([hb, "-pick", "quick" if q else "thorough", "-out", out], timeout=1500)
+    rows = vlib.read_ndjson(out)
+    bad, _, _ = judge(ctx, "tasklane", "LanePickCases", rows, nshards=2, workers=2, timeout=600)
+    for c in bad[:5]:
+        if c["kind"] == "rest":
+            w = "ShortestQueueIndex on a lane at rest (laneSize %d, queueSize %d) with buffer lengths %s returned index %d" % (c["n"], c["q"], c["lens"], c["idx"] - 1)
+        elif c["kind"] == "busy":
+            w = "ShortestQueueIndex under load (laneSize %d) returned %d, not a lane index" % (c["n"], c["idx"] - 1)
+        else:
+            w = "a producer pushing %d tasks to the lane ShortestQueueIndex named (laneSize %d, queueSize %d, lane at rest) was sent to lanes %s" % (len(c["picks"]), c["n"], c["q"], [x - 1 for x in c["picks"]])
+        ctx.violation("X14 " + c["kind"], w, c)
+    nrest = sum(1 for c in rows if c["kind"] == "rest")
+    if nrest < 20:
+        raise vlib.Infra("only %d at-rest cases recorded" % nrest)
+    ctx.cov.update({"traces_validated_against_impl": len(rows), "evaluations": len(rows), "distinct_nontrivial": nrest,
+                    "rule": "extras family X14: ShortestQueueIndex results of the real lane (every buffer-length vector at rest, under load, as lane chooser) judged by LanePickCases.tla; LanePick.tla model-checked with the loop's two reads per iteration interleaved with sends and takes",
+                    "bad": len(bad)})
     ctx.sample(rows[len(rows) // 2])
